@@ -718,7 +718,8 @@ def _normalize_split_every(split_every, axis):
     identically; the lowering re-applies it idempotently for direct callers."""
     split_every = split_every or config.get("split_every", 16)
     if isinstance(split_every, dict):
-        return {k: split_every.get(k, 2) for k in axis}
+        # at least 2, like the integer form below: a fan-in of 1 never reduces
+        return {k: builtins.max(split_every.get(k, 2), 2) for k in axis}
     if isinstance(split_every, Integral):
         n = builtins.max(int(split_every ** (1 / (len(axis) or 1))), 2)
         return dict.fromkeys(axis, n)
